@@ -4,7 +4,7 @@
 # given checks against it with evidence/replays redirected to a scratch directory. Prints one line per check.
 set -uo pipefail
 V=/verif
-patch=$1; shift
+patch=$1; shift; case "$patch" in /*|-R) ;; *) patch="$PWD/$patch";; esac
 ids=(); extra=()
 while [ $# -gt 0 ]; do if [ "$1" = "--" ]; then shift; extra=("$@"); break; fi; ids+=("$1"); shift; done
 S=$(mktemp -d /dev/shm/mut.XXXXXX)
